@@ -701,6 +701,23 @@ fn maybe_runtype_any_of_discriminated(
                             // members apart syntactically only; dispatching on it would recurse forever
                             continue;
                         }
+                        // a value that every member admits selects the whole union again: the
+                        // sub-union for it would pick the same discriminator, without end
+                        let selects_everything = discriminator_strings.iter().any(|key| {
+                            object_vs.iter().all(|vs| {
+                                let value = vs
+                                    .get(&discriminator)
+                                    .expect("we already checked the discriminator exists")
+                                    .inner();
+                                extract_union(value, named_schemas)
+                                    .into_iter()
+                                    .filter_map(|it| it.extract_single_string_const())
+                                    .any(|it| it == *key)
+                            })
+                        });
+                        if selects_everything {
+                            continue;
+                        }
 
                         return Some(runtype_any_of_discriminated(
                             original_runtype,
